@@ -373,6 +373,17 @@ func (f *FCFG) edgeEntails(b *cfg.Block, k int, cls func(e ast.Expr) (string, bo
 	if cond == nil {
 		return false
 	}
+	return f.exprEntails(cond, k == 0, b, cls, goal)
+}
+
+// exprEntails decides whether `cond` evaluating to `want` implies goal (b is
+// the block whose condition cond is, or nil for a free-standing expression
+// such as a returned boolean).
+func (f *FCFG) exprEntails(cond ast.Expr, want bool, b *cfg.Block, cls func(e ast.Expr) (string, bool), goal func(v map[string]bool) bool) bool {
+	k := 1
+	if want {
+		k = 0
+	}
 	type atom struct {
 		name string
 		neg  bool
